@@ -754,6 +754,28 @@ func (r *Reconciler) applyRollback(ctx context.Context, transaction *configapi.T
 			}, true, nil
 		}
 
+		// A change whose apply was aborted never reached the target or the applied configuration: its rollback has
+		// nothing to restore there. Sending the values it displaced in the committed configuration would push
+		// revisions to the target that were never applied.
+		if transaction.Status.Change.Apply.State == configapi.TransactionPhaseStatus_ABORTED {
+			configuration.Applied.Index = transaction.ID.Index
+			configuration.Applied.Ordinal = transaction.Status.Rollback.Ordinal
+			if err := r.updateConfigurationStatus(ctx, configuration); err != nil {
+				return controller.Result{}, false, err
+			}
+			transaction.Status.Rollback.Apply.State = configapi.TransactionPhaseStatus_COMPLETE
+			transaction.Status.Rollback.Apply.End = now()
+			if err := r.updateTransactionStatus(ctx, transaction); err != nil {
+				return controller.Result{}, false, err
+			}
+			return controller.Result{
+				Requeue: controller.NewID(configapi.TransactionID{
+					Target: transaction.ID.Target,
+					Index:  transaction.ID.Index + 1,
+				}),
+			}, true, nil
+		}
+
 		values := addDeleteChildren(transaction.ID.Index, transaction.Status.Rollback.Values, configuration.Committed.Values)
 		if ok, err := r.applyValues(ctx, transaction, configuration, values); !ok {
 			return controller.Result{}, false, err
